@@ -1,0 +1,18 @@
+//go:build verif
+
+package hsms
+
+// This file exists only under the `verif` build tag. It exports seams for the external
+// verification harness (/verif, properties C03/C04): it adds code only and changes no
+// production behaviour.
+
+// VerifFrameBuffers exposes buildFrameBuffers: the fresh net.Buffers writeFrame hands to the
+// transport for msg (one slice per buffer, not copied).
+func VerifFrameBuffers(msg Message) [][]byte { return buildFrameBuffers(msg) }
+
+// VerifFrameDecodeOwned exposes decodeOwnedFrame, the decode the receive path runs on an owned
+// [header || body] buffer (via DeliverOwnedFrame), without the public wrappers' length checks.
+func VerifFrameDecodeOwned(owned []byte) (Message, error) { return decodeOwnedFrame(owned) }
+
+// VerifFrameCap exposes maxHSMSMsgLen, the cap on the HSMS message-length field.
+func VerifFrameCap() int { return maxHSMSMsgLen }
